@@ -109,6 +109,38 @@ theorem comp_false_sem (isBytes dot ci : Bool) (g : Pat) (hn : g.negFree = true)
 
 /-! ### (ii) tokens at the start of the name -/
 
+/-- where no start guard is emitted, compiling "at the start" and "not at the start" coincide -/
+theorem comp_guardFree (isBytes dot : Bool) (g : Pat) (hg : g.guardFree dot = true) (hn : g.negFree = true) :
+    comp isBytes dot true g = comp isBytes dot false g := by
+  induction g with
+  | eps => rfl
+  | lit c => rfl
+  | any => have : dot = true := by simpa [Pat.guardFree] using hg
+           subst this; rfl
+  | star => simp [Pat.guardFree] at hg
+  | cls n i => have : dot = true := by simpa [Pat.guardFree] using hg
+               subst this; rfl
+  | seq p q ihp ihq =>
+    simp only [Pat.negFree, Bool.and_eq_true] at hn
+    simp only [Pat.guardFree, Bool.and_eq_true] at hg
+    rw [comp_seq _ _ _ _ _ hn.1, comp_seq _ _ _ _ _ hn.1, ihp hg.1 hn.1]
+    cases he : p.isEmpty with
+    | true =>
+      have : q.guardFree dot = true := by simpa [he] using hg.2
+      simp [ihq this hn.2]
+    | false => simp
+  | alt p q ihp ihq =>
+    simp only [Pat.negFree, Bool.and_eq_true] at hn
+    simp only [Pat.guardFree, Bool.and_eq_true] at hg
+    simp only [comp, ihp hg.1 hn.1, ihq hg.2 hn.2]
+  | ext k p ih =>
+    cases k with
+    | neg => simp [Pat.negFree] at hn
+    | opt => simp only [comp, ih (by simpa [Pat.guardFree] using hg) (by simpa [Pat.negFree] using hn)]
+    | star => simp only [comp, ih (by simpa [Pat.guardFree] using hg) (by simpa [Pat.negFree] using hn)]
+    | plus => simp only [comp, ih (by simpa [Pat.guardFree] using hg) (by simpa [Pat.negFree] using hn)]
+    | one => simp only [comp, ih (by simpa [Pat.guardFree] using hg) (by simpa [Pat.negFree] using hn)]
+
 /-- the conditions C01 puts on the name: non-empty, and no leading dot unless DOTMATCH -/
 def StartOK (dot : Bool) (a : St) : Prop :=
   a.rest ≠ [] ∧ (dot = true ∨ a.rest.head? ≠ some '.')
@@ -150,7 +182,7 @@ theorem L_of_isEmpty (ci : Bool) (p : Pat) (h : p.isEmpty = true) (a b : St) :
   | _ => simp [Pat.isEmpty] at h
 
 theorem comp_true_sem (isBytes dot ci : Bool) (g : Pat) (hn : g.negFree = true) (hs : g.noSlash = true)
-    (hst : g.startSafe = true) :
+    (hst : g.startSafe dot = true) :
     ∀ a b, StartOK dot a → (Re.M ⟨true, ci⟩ (comp isBytes dot true g) a b ↔ Pat.L ci g a b) := by
   induction g with
   | eps => intro a b _; simp [comp, Re.M, Pat.L]
@@ -221,7 +253,7 @@ theorem comp_true_sem (isBytes dot ci : Bool) (g : Pat) (hn : g.negFree = true) 
     simp only [Bool.true_and, Re.M.eq_5, Pat.L]
     cases he : p.isEmpty with
     | true =>
-      have hq : q.startSafe = true := by simpa [he] using hst.2
+      have hq : q.startSafe dot = true := by simpa [he] using hst.2
       constructor
       · rintro ⟨c, h1, h2⟩
         have hc := (ihp hn.1 hs.1 hst.1 a c hok).mp h1
@@ -248,8 +280,20 @@ theorem comp_true_sem (isBytes dot ci : Bool) (g : Pat) (hn : g.negFree = true) 
     intro a b hok
     cases k with
     | neg => simp [Pat.negFree] at hn
-    | star => simp [Pat.startSafe] at hst
-    | plus => simp [Pat.startSafe] at hst
+    | star =>
+      have hgf : p.guardFree dot = true := by simpa [Pat.startSafe] using hst
+      have hnf : p.negFree = true := by simpa [Pat.negFree] using hn
+      have heq : comp isBytes dot true (.ext .star p) = comp isBytes dot false (.ext .star p) := by
+        simp only [comp, comp_guardFree isBytes dot p hgf hnf]
+      rw [heq]
+      exact comp_false_sem isBytes dot ci (.ext .star p) hn hs a b
+    | plus =>
+      have hgf : p.guardFree dot = true := by simpa [Pat.startSafe] using hst
+      have hnf : p.negFree = true := by simpa [Pat.negFree] using hn
+      have heq : comp isBytes dot true (.ext .plus p) = comp isBytes dot false (.ext .plus p) := by
+        simp only [comp, comp_guardFree isBytes dot p hgf hnf]
+      rw [heq]
+      exact comp_false_sem isBytes dot ci (.ext .plus p) hn hs a b
     | opt =>
       have := ih (by simpa [Pat.negFree] using hn) (by simpa [Pat.noSlash] using hs)
         (by simpa [Pat.startSafe] using hst) a b hok
@@ -487,7 +531,7 @@ theorem suf_getLast {a c : St} (h : St.Suf c a) (hnl : a.rest.getLast? ≠ some 
 
 /-- body compiled at `as` -/
 theorem comp_body_sem (isBytes dot ci as : Bool) (body : Pat) (hn : body.negFree = true)
-    (hs : body.noSlash = true) (a : St) (hok : as = true → StartOK dot a ∧ body.startSafe = true) :
+    (hs : body.noSlash = true) (a : St) (hok : as = true → StartOK dot a ∧ body.startSafe dot = true) :
     ∀ c, Re.M ⟨true, ci⟩ (comp isBytes dot as body) a c ↔ Pat.L ci body a c := by
   intro c
   cases as with
@@ -497,7 +541,7 @@ theorem comp_body_sem (isBytes dot ci as : Bool) (body : Pat) (hn : body.negFree
 /-- **the semantic theorem for the scope C01 states** (fnmatch mode): for a match that ends at
     the end of the subject, the compiled regex accepts exactly the documented language. -/
 theorem comp_scope_sem (isBytes dot ci : Bool) (g : Pat) (hsc : g.c01Scope = true) (hs : g.noSlash = true) :
-    ∀ (as : Bool) (a y : St), (as = true → StartOK dot a ∧ g.startSafe = true) → y.rest = [] →
+    ∀ (as : Bool) (a y : St), (as = true → StartOK dot a ∧ g.startSafe dot = true) → y.rest = [] →
       (g.negFree = true ∨ a.rest.getLast? ≠ some '\n') →
       (Re.M ⟨true, ci⟩ (comp isBytes dot as g) a y ↔ Pat.L ci g a y) := by
   induction g with
